@@ -9,11 +9,14 @@ pub struct QOut {
     pub hint_errors: Vec<String>,
 }
 pub type QFn<W> = fn(&mut W, u8, Option<u64>) -> QOut;
+/// parallel query: (world, pool threads, consumption mode, write epoch)
+pub type PFn<W> = fn(&mut W, usize, u8, Option<u64>) -> QOut;
 /// `Err(())`: `entry()` was `None`; `Ok(None)`: the query's filter rejected the entity.
 pub type EFn<W> = fn(&mut W, entity::Identifier) -> Result<Option<String>, ()>;
 
 pub trait Family: 'static {
     fn queries() -> &'static [(&'static str, &'static str, QFn<Self::W>)];
+    fn par_queries() -> &'static [(&'static str, &'static str, PFn<Self::W>)];
     fn entryqs() -> &'static [(&'static str, &'static str, EFn<Self::W>)];
     fn entries() -> &'static [(&'static str, &'static str, &'static str, &'static str, &'static str, EFn<Self::W>)];
     type W: 'static;
